@@ -104,41 +104,6 @@ theorem aipsw_weights_saturated_unstab (l : List (Row F)) (S : List Nat) (hS : S
     simp only [ipswConst] at b2
     cases generalize <;> cases a <;> simp [Gen.ipsw_weight, Gen.iptw_weight, Tgt.str] <;> field_simp
 
-/-- **Tie to the source.**  The definition regenerated from the text of `AIPSW.fit` on every run computes
-    exactly the model `aipsw` the theorems above are about (no frequency-weight column: AIPSW refuses one):
-    its two outputs are the difference and the ratio of the two arms. -/
-theorem aipsw_fit_generated (generalize hasIptw : Bool) (l : List (Row F)) (hw : ∀ r ∈ l, r.w = 1)
-    (ipsw iptw q1 q0 : Row F → F) :
-    let Q : Row F → Bool → F := fun r a => if a then q1 r else q0 r
-    let ω : Row F → F := fun r => if hasIptw then ipsw r * iptw r else ipsw r
-    Gen.aipsw_fit generalize false hasIptw l ipsw iptw q1 q0
-      = (aipsw generalize l Q ω true - aipsw generalize l Q ω false,
-         aipsw generalize l Q ω true / aipsw generalize l Q ω false) := by
-  intro Q ω
-  have e1 : aipsw generalize l Q ω true = aipsw generalize l (fun r _ => q1 r) ω true := rfl
-  have e0 : aipsw generalize l Q ω false = aipsw generalize l (fun r _ => q0 r) ω false := rfl
-  rw [e1, e0, aipsw_arm_eq generalize l hw ω q1 true, aipsw_arm_eq generalize l hw ω q0 false]
-  cases generalize <;> cases hasIptw <;>
-    simp [Gen.aipsw_fit, ω, add_comm]
-
-/-- **Tie to the source (IPSW).**  The definition regenerated from the text of `IPSW.fit` returns the difference
-    and ratio of the model's two arm means `ipsw` (weights `ipsw·iptw`, times the frequency weight when given). -/
-theorem ipsw_fit_generated (hasWeight hasIptw : Bool) (l : List (Row F)) (hw : hasWeight = false → ∀ r ∈ l, r.w = 1)
-    (sw tw : Row F → F) :
-    let ω : Row F → F := fun r => if hasIptw then sw r * tw r else sw r
-    Gen.ipsw_fit hasWeight hasIptw l sw tw = (ipsw l ω true - ipsw l ω false, ipsw l ω true / ipsw l ω false) := by
-  intro ω
-  rw [ipsw_arm_eq l ω true, ipsw_arm_eq l ω false]
-  cases hasWeight
-  · have hw' := hw rfl
-    have e : ∀ (a : Bool) (f g : Row F → F), (∀ r ∈ l, f r = g r) →
-        sumBy (fun r => if (r.obs = true ∧ r.a = a) then f r else 0) l
-          = sumBy (fun r => if (r.obs = true ∧ r.a = a) then g r else 0) l := by
-      intro a f g h; apply sumBy_congr; intro r hr; rw [h r hr]
-    cases hasIptw <;> simp only [Gen.ipsw_fit, ω] <;> simp <;> constructor <;> congr 1 <;> congr 1 <;>
-      apply sumBy_congr <;> intro r hr <;> simp [hw' r hr]
-  · cases hasIptw <;> simp [Gen.ipsw_fit, ω]
-
 /-- the risk difference and ratio are the difference and ratio of the two standardized risks -/
 theorem rd_rr_def (l : List (Row F)) (S : List Nat) (hS : Strata l S) (hpos : Positivity l S)
     (generalize : Bool) (Q : Nat → Bool → F) (hQ : OutFit l S Q) :
